@@ -33,6 +33,8 @@ def main(path):
         vals.setdefault(n, float(Fraction(q)))
     mk = FloatMaker(vals)
     I = case.inputs(mk)
+    if hasattr(case, "replay_custom"):
+        return case.replay_custom(I, mk)
     raised = None
     out = None
     try:
